@@ -77,10 +77,11 @@ func (s *InMemoryKindMapper) MapKinds(ctx context.Context, kinds graph.Kinds) ([
 }
 
 func (s *InMemoryKindMapper) AssertKinds(ctx context.Context, kinds graph.Kinds) ([]int16, error) {
-	ids, missing := s.mapKinds(kinds)
+	// IDs are returned in the order of the given kinds, as SchemaManager.AssertKinds does
+	ids := make([]int16, len(kinds))
 
-	for _, kind := range missing {
-		ids = append(ids, s.Put(kind))
+	for idx, kind := range kinds {
+		ids[idx] = s.Put(kind)
 	}
 
 	return ids, nil
